@@ -66,6 +66,35 @@ def do_op(ctx, op, role, node, radio, clock, x, lvl, step, n):
         r = node.renew_address(0.25)
         ctx.check(r is None, "renew_address() without any responder returns None")
         return node.node_address, None
+    if op == "renew_partial":
+        # a master that answers the poll and the address request but never the confirming look-ups (they are lost): the node
+        # gives the address up again - and must then listen as the unassigned node it says it is
+        seen = {"poll": 0, "req": 0}
+        prev = clock.on_look
+        nid = node.node_id
+        offered = ctx.int(tag + "_offered", 1, 5)
+
+        def stub():
+            if prev:
+                prev()
+            if not radio.listening() or not radio.sent:
+                return
+            last = radio.sent[-1]["data"]
+            t = last[6]
+            if bool(t == 194) and seen["poll"] < len(radio.sent):
+                seen["poll"] = len(radio.sent)
+                radio.inject_rx(0, [0, 0, 0x24, 0x09, 1, 0, 194, 0])
+            elif bool(t == 195) and seen["req"] < len(radio.sent):
+                seen["req"] = len(radio.sent)
+                radio.inject_rx(0, [0, 0, 0x24, 0x09, 2, 0, 128, nid, offered, 0])
+        clock.on_look = stub
+        try:
+            r = node.renew_address(0.6)
+        finally:
+            clock.on_look = prev
+        ctx.check(seen["req"] > 0, "the scenario was reached (an address was offered)")
+        ctx.check(r is None, "renew_address() returns None when the offered address cannot be confirmed")
+        return node.node_address, None
     if op == "release":
         node.release_address()
         return node.node_address, None
@@ -117,7 +146,7 @@ def h_history(ctx, role, lvl, ops, n, ack_arrives, link="per-packet"):
             x, new_p0 = do_op(ctx, op, role, node, radio, clock, x, node.multicast_level if step else lvl, step, n)
             if op == "multicast_level":
                 p0 = new_p0
-            elif op in ("node_address", "renew_none", "release"):
+            elif op in ("node_address", "renew_none", "renew_partial", "release"):
                 p0 = None
         except (ValueError, AttributeError, TypeError) as e:  # documented argument errors: the node must still listen
             x = node.node_address
@@ -151,6 +180,8 @@ def jobs(tier):
                                                           ack_arrives=op in ("lookup_address", "mesh_send", "check_connection_master")),
                            cost=30, shards=3))
     out.append(Job("single-call", h_history, dict(role="mesh", lvl=4, ops=["renew_none"], n=0, ack_arrives=False), cost=30))
+    for lvl in ((4, 1) if tier == "quick" else (4, 1, 2)):  # (level 4 with every digit 4 = the unassigned address itself)
+        out.append(Job("single-call-unconfirmed-join", h_history, dict(role="mesh", lvl=lvl, ops=["renew_partial"], n=0, ack_arrives=False), cost=60))
     out.append(Job("single-call", h_history, dict(role="master", lvl=0, ops=["update"], n=10, ack_arrives=False), cost=30, shards=6))
     out.append(Job("single-call", h_history, dict(role="master", lvl=0, ops=["multicast"], n=25, ack_arrives=False), cost=10))
     for lvl, op, n in (((1, "write_parent", 49), (2, "write_desc", 25), (1, "write_child", 0)) if tier == "quick" else
